@@ -140,6 +140,31 @@ func (r *runner) created(what string, s step, m obs, instHandle bool, name strin
 	return "", ""
 }
 
+// failing: an instantiation whose start function traps is performed in BOTH worlds (it fails
+// after its element segments were applied to imported tables, so it has effects) and must fail
+// alike; neither world gets a usable handle.
+func (r *runner) failing(what string, m obs, twinDo func() obs) (viol, harness string) {
+	if m.Out.Kind == wz.KInternal {
+		return fmt.Sprintf("%s: internal failure: %v", what, m), ""
+	}
+	if m.Out.Kind == wz.KOther {
+		// an ordinary error that is not a trap: it failed before anything was applied (e.g. its
+		// code is gone): nothing happened, the twin skips it
+		r.res.Labels["create-failed: "+m.Out.Detail]++
+		r.twin.insts = append(r.twin.insts, nil)
+		return "", ""
+	}
+	t := twinDo()
+	if t.Out.Kind == wz.KOK {
+		return "", what + ": a module whose start function traps was instantiated in the twin"
+	}
+	if m.Out.Kind == wz.KOK {
+		return what + ": a module whose start function traps was instantiated (the twin fails with " + t.String() + ")", ""
+	}
+	r.res.Labels["instantiation-failed-in-start-after-element-segments"]++
+	return r.judge(what, m, t), ""
+}
+
 func (r *runner) skipHandle(inst bool) {
 	if inst {
 		r.main.insts = append(r.main.insts, nil)
@@ -173,11 +198,17 @@ func (r *runner) do(i int, s step) (viol, harness string) {
 			r.skipHandle(true)
 			return
 		}
+		if r.h.Specs[m.cms[s.CM].spec].StartTrap {
+			return r.failing(what, m.instantiate(s.CM, s.Name), func() obs { return t.instantiate(s.CM, s.Name) })
+		}
 		return r.created(what, s, m.instantiate(s.CM, s.Name), true, s.Name, m.cms[s.CM].rt, func() obs { return t.instantiate(s.CM, s.Name) })
 	case "instbytes":
 		if !r.rtOK(s.RT) || s.Spec < 0 || s.Spec >= len(m.bins) {
 			r.skipHandle(true)
 			return
+		}
+		if r.h.Specs[s.Spec].StartTrap {
+			return r.failing(what, m.instBytes(s.RT, s.Spec, s.Name), func() obs { return t.instBytes(s.RT, s.Spec, s.Name) })
 		}
 		return r.created(what, s, m.instBytes(s.RT, s.Spec, s.Name), true, s.Name, s.RT, func() obs { return t.instBytes(s.RT, s.Spec, s.Name) })
 	case "call":
